@@ -92,6 +92,20 @@ def contraction_slack(rec, exp_rho, dims, names):
     return 0.0
 
 
+def post_invalid(rec, names):
+    """C07-type problems of the post-state blocks that hold any of `names` (the call's own result must be a valid,
+    correctly tagged state: later judgements are gated on valid pre-states, so nobody else would look)"""
+    try:
+        probs = wellformed.c07(rec.post)
+    except Exception:  # noqa: BLE001
+        return []
+    out = []
+    for mode, det in probs:
+        if mode == "unreadable" or any(("'" + n + "'") in det for n in names):
+            out.append((mode, det))
+    return out
+
+
 def pre_ok(rec):
     """the pre-state is readable and every stored block is a valid quantum state (the properties speak about
     valid states; what an earlier defect left behind is not held against the call under judgement)"""
@@ -143,6 +157,9 @@ def judge_apply(rec, prop):
     if not ok and not exp["approx"] and err <= S.EXACT_TOL + contraction_slack(rec, exp["rho"], exp["dims"], exp["names"]):
         ok = True
     if ok:
+        bad = post_invalid(rec, st["targets"])
+        if bad:
+            return [V(prop, "violated", "post-state-invalid", f"{bad[0][0]}: {bad[0][1]}", cell=cell, **sig)]
         return [V(prop, "held", cell=cell, **sig)]
     if exp["approx"]:
         # truncation quality is C10's business; C01 only demands the right map up to the documented threshold
@@ -269,7 +286,11 @@ def judge_c06(rec):
         return [V("C06", "inconclusive", "invalid-request", str(e), cell=cell, **sig)]
     sig["state"] = sc
     if rec.exc is not None:
-        return [V("C06", "violated", "spurious-exception", f"{rec.exc_type}: {rec.exc_msg}", cell=cell, **sig)]
+        return [V("C06", "violated", "spurious-exception", f"{rec.exc_type}: {rec.exc_msg}" + (" (operator list re-used from an earlier step)" if st.get("kraus_id") is not None else ""), cell=cell, **sig)]
+    if rec.user_list_before is not None and rec.user_arrays is not None:
+        now = [(id(x), tuple(getattr(x, "shape", ()))) for x in rec.user_arrays]
+        if now != rec.user_list_before:
+            return [V("C06", "violated", "operator-list-mutated", "the caller's list of Kraus operators was modified by apply_kraus (elements replaced / reshaped)", cell=cell, **sig)]
     try:
         got, gd = rho_post(rec, exp["names"])
     except Malformed as e:
@@ -279,7 +300,11 @@ def judge_c06(rec):
     if e > S.EXACT_TOL + contraction_slack(rec, exp["rho"], exp["dims"], exp["names"]):
         out.append(V("C06", "violated", "wrong-state", f"maxabs={e:.3g} trace={np.trace(got).real:.6g}", cell=cell, **sig))
     else:
-        out.append(V("C06", "held", cell=cell, **sig))
+        bad = post_invalid(rec, st["targets"])
+        if bad:
+            out.append(V("C06", "violated", "post-state-invalid", f"{bad[0][0]}: {bad[0][1]}", cell=cell, **sig))
+        else:
+            out.append(V("C06", "held", cell=cell, **sig))
     # level rule: a mixed block must be reported as a density matrix
     try:
         for b in blocks(rec.post):
@@ -507,7 +532,11 @@ def judge_measure(rec, prop):
     if err > S.EXACT_TOL + 1e-13 / e["prob"] + contraction_slack(rec, e["rho"], e["dims"], e["names"]):
         out.append(V(prop, "violated", "wrong-collapse", f"maxabs={err:.3g} (p={e['prob']:.3g})", cell=cell, **sig))
     else:
-        out.append(V(prop, "held", cell=cell, **sig))
+        bad = post_invalid(rec, e["names"])
+        if bad:
+            out.append(V(prop, "violated", "post-state-invalid", f"{bad[0][0]}: {bad[0][1]}", cell=cell, **sig))
+        else:
+            out.append(V(prop, "held", cell=cell, **sig))
     return out
 
 
@@ -665,7 +694,11 @@ def judge_c09(rec):
     if err > S.EXACT_TOL + 1e-13 / pk + contraction_slack(rec, want, [dims[names.index(n)] for n in keep], keep):
         out.append(V("C09", "violated", "wrong-post-state", f"maxabs={err:.3g} (p={pk:.3g})", cell=cell, **sig))
     if not any(v["status"] == "violated" for v in out):
-        out.append(V("C09", "held", cell=cell, **sig))
+        bad = post_invalid(rec, keep)
+        if bad:
+            out.append(V("C09", "violated", "post-state-invalid", f"{bad[0][0]}: {bad[0][1]}", cell=cell, **sig))
+        else:
+            out.append(V("C09", "held", cell=cell, **sig))
     return out
 
 
@@ -818,7 +851,7 @@ def judge_c20(rec):
         if post_sz > pre_sz:
             out.append(V("C20", "violated", "single-enlarged", f"{t}: block size {pre_sz}->{post_sz}", cell=cell, **sig))
     # multi-subsystem action merges exactly the blocks of its operands
-    if st["k"] in ("apply", "kraus", "povm") and len(st.get("targets", [])) > 1 and rec.exc is None:
+    if (st["k"] in ("apply", "kraus", "povm") or (st["k"] == "combine" and st.get("via") == "ce")) and len(st.get("targets", [])) > 1 and rec.exc is None:
         tg = [t for t in st["targets"] if t in where1]
         if tg:
             bs = {id(where1[t]) for t in tg}
